@@ -4,7 +4,7 @@ import json, subprocess
 ENV = ". /verif/env.sh; "
 claimed = {
  "C17": dict(
-   text="Deductive proof: every method of LongBitmask (and, as they are added, ConnectedBitmask/ShortBitmask) carries a whole-view functional contract against the integer-set model (word function W / run-list membership); gvc generates verification conditions from the SSA of the real methods on every run (loops cut at invariants, calls by contract, recursion with a variant, no-panic sweep) and z3/cvc5 discharge every obligation for all inputs and all iteration counts. Operation sequences follow by induction because every contract is stated over the whole view and preserves the representation invariant.",
+   text="Deductive proof: every method of LongBitmask (and, as they are added, ConnectedBitmask/ShortBitmask) carries a whole-view functional contract against the integer-set model (word function W / run-list membership); gvc generates verification conditions from the SSA of the real methods on every run (loops cut at invariants, calls by contract, recursion with a variant, no-panic sweep) and z3/cvc5 discharge every obligation for all inputs and all iteration counts. Operation sequences follow by induction because every contract is stated over the whole view and preserves the representation invariant. ConnectedBitmask: canonical form (sorted, disjoint, non-adjacent runs) is proved for every operation; set meaning is proved for Set/Unset/Flip/IsSet/Len/IsZero/Copy/Equal/Inject/Extract and for the loops of OrCopy (coverage invariants). ShortBitmask (a linked list), the membership meaning of And/Xor/Sub/Or results and the agreement of the three representations are covered by a bounded stand-in (operation sequences against a set model, labelled bounded, not counted as proved).",
    note="Trusted: go/ssa NaiveForm translation, gvc's memory model (slices own their backing arrays; append yields a fresh array), math/bits contracts (assumed, listed in evidence), allocations succeed (len <= 2^48), the SMT solvers. Bit-level meaning of the word formulas is proved as separate pure bit-vector lemmas.",
    tech="contract-based deductive verification: own VC generator over go/ssa + z3/cvc5",
    ref="DESIGN.md section 4 (C17)"),
